@@ -59,6 +59,16 @@ func runSolver(ctx context.Context, sd solverDef, file string, timeout int) (sta
 // solve races the installed solvers on one obligation.
 func solve(o *Obligation, dir string, timeout int) *SolveResult {
 	res := &SolveResult{Name: o.Name, All: map[string]string{}}
+	if o.Structural {
+		res.Solver = "structural (call-graph sweep over go/ssa)"
+		res.Status = "discharged"
+		if !o.StructOK {
+			res.Status = "refuted"
+			res.Detail = o.StructMsg
+			res.Model = o.StructMsg
+		}
+		return res
+	}
 	base := filepath.Join(dir, sanitize(o.Name))
 	if len(base) > 200 {
 		base = base[:200]
@@ -130,7 +140,9 @@ func firstLines(s string, n int) string {
 func solveAll(obls []*Obligation, dir string, timeout, workers int) []*SolveResult {
 	os.MkdirAll(dir, 0755)
 	for _, o := range obls {
-		o.Script.index()
+		if o.Script != nil {
+			o.Script.index()
+		}
 	}
 	out := make([]*SolveResult, len(obls))
 	var wg sync.WaitGroup
